@@ -92,7 +92,8 @@ bool Logic::isBuiltinFunction(SymRef const sr) const {
 }
 
 bool Logic::isReservedWord(std::string const & name) const {
-    return tokens::tokenNames.find(name) != tokens::tokenNames.end();
+    // `_` and `!` are reserved words of SMT-LIB that the lexer returns as characters, not as named tokens
+    return name == "_" or name == "!" or tokens::tokenNames.find(name) != tokens::tokenNames.end();
 }
 
 // Escape the symbol name if it contains a character not allowed in the simple symbol, as defined by SMT-LIB 2.6
@@ -128,8 +129,8 @@ std::string Logic::disambiguateName(std::string const & protectedName, SRef sort
 // Quote the name if it contains illegal characters
 //
 std::string Logic::protectName(std::string const & name, bool isInterpreted) const {
-    assert(not name.empty());
-    if (not isInterpreted and (hasQuotableChars(name) or std::isdigit(name[0]) or isReservedWord(name))) {
+    // the empty symbol || can only be written quoted
+    if (not isInterpreted and (name.empty() or hasQuotableChars(name) or std::isdigit(name[0]) or isReservedWord(name))) {
         return '|' + name + '|';
     }
     return name;
